@@ -1,9 +1,8 @@
-# /verif top-level: `make setup` builds every Coq theory from files on disk (offline).
+# /verif top-level: `make setup` builds every Coq theory from files on disk (offline, full .vo build).
 PY=/venv/bin/python
 setup:
-	$(PY) -c "import sys; sys.path.insert(0,'harness'); import common; common.ensure_makefile()"
-	timeout 3000 $(MAKE) -C coq -j16
+	$(PY) -c "import sys; sys.path.insert(0,'/verif/harness'); import common; sys.exit(common.build_all())"
 clean:
-	-$(MAKE) -C coq clean
-	rm -rf coq/cases coq/gen coq/Makefile coq/Makefile.conf
+	find coq -name '*.vo' -o -name '*.vok' -o -name '*.vos' -o -name '*.glob' -o -name '.*.aux' | xargs rm -f
+	rm -rf coq/cases coq/gen
 .PHONY: setup clean
